@@ -16,7 +16,7 @@ import (
 func NewUnixFSFile(ctx context.Context, substrate ipld.Node, lsys *ipld.LinkSystem) (LargeBytesNode, error) {
 	if substrate.Kind() == ipld.Kind_Bytes {
 		// A raw / single-node file.
-		return &singleNodeFile{substrate}, nil
+		return &singleNodeFile{Node: substrate}, nil
 	}
 	// see if it's got children.
 	links, err := substrate.LookupByString("Links")
@@ -62,6 +62,9 @@ type LargeBytesNode interface {
 
 type singleNodeFile struct {
 	ipld.Node
+	// substrate is the node this file was reified from when that is not the bytes node
+	// itself (a dag-pb file node carrying its data inline); nil means Node is the substrate.
+	substrate ipld.Node
 }
 
 func (f *singleNodeFile) AsLargeBytes() (io.ReadSeeker, error) {
@@ -69,6 +72,9 @@ func (f *singleNodeFile) AsLargeBytes() (io.ReadSeeker, error) {
 }
 
 func (f *singleNodeFile) Substrate() datamodel.Node {
+	if f.substrate != nil {
+		return f.substrate
+	}
 	return f.Node
 }
 
